@@ -367,3 +367,30 @@ Proof.
     destruct (inbox (pull_hi (pull_lo (snap x0)))); reflexivity.
   - destruct (inbox (pull_hi (pull_lo (snap x0)))); reflexivity.
 Qed.
+
+(* ------------------------------------------------------------------------------------------ *)
+(* the call sites of contraints_check (closed data)                                            *)
+
+Lemma filter_calls_are_model : src_filter_calls = model_filter_calls.
+Proof. reflexivity. Qed.
+
+(* ------------------------------------------------------------------------------------------ *)
+(* the clauses of Props/C17.v restated for the program regenerated from the source             *)
+
+Lemma source_properties : forall (XT : Type) (inv : qrow -> XT) U lb ub tol_mesh X xmi proj cons,
+  let out := src_filter inv U lb ub tol_mesh X xmi proj cons in
+  ((proj = true -> box_ok lb ub) -> Forall (in_box lb ub) out) /\
+  (forall c, cons = Some c -> Forall (fun r => Qle_bool (c (inv r)) (0 # 1) = true) out) /\
+  NoDup out /\ NoDup (map (rkey (half_tol tol_mesh)) out) /\
+  Forall (fun r => exists u, In u U /\ r = (if proj then clamp_row lb ub u else u)) out.
+Proof.
+  intros XT inv U lb ub tol_mesh X xmi proj cons out. unfold out. rewrite filter_is_source.
+  split; [intros Hb; apply filter_in_box; exact Hb|].
+  split.
+  - intros c Hc. subst cons. cbn [violated_of option_map].
+    eapply Forall_impl; [|apply filter_feasible]. intros r Hr. cbv beta in Hr.
+    destruct (Qle_bool (c (inv r)) (0 # 1)); [reflexivity | discriminate Hr].
+  - pose proof (filter_nodup_all proj lb ub tol_mesh (py_prefix (xmi + 1) X) (violated_of inv cons) U) as [H1 [_ H3]].
+    pose proof (filter_subset_all proj lb ub tol_mesh (py_prefix (xmi + 1) X) (violated_of inv cons) U) as [H4 _].
+    split; [exact H1|]. split; [exact H3 | exact H4].
+Qed.
